@@ -800,6 +800,12 @@ class Dict(dict, base.Symbolic, pg_typing.CustomTyping):
     if base.treats_as_sealed(self):
       raise base.WritePermissionError('Cannot clear a sealed Dict.')
     value_spec = self._value_spec
+    if value_spec and value_spec.schema:
+      # NOTE: a dict with value spec is reset to its default values. Make sure
+      # that is possible before anything is removed.
+      value_spec.schema.apply(
+          {}, allow_partial=base.accepts_partial(self),
+          root_path=self.sym_path)
     self._value_spec = None
     removed = list(self.sym_items())
     super().clear()
